@@ -51,6 +51,9 @@ type PageNumberFinder struct {
 
 	timingInfo *data.TimingInfo
 	logger     logutil.Logger
+
+	// baseURL is the page URL as supplied by the caller, used to resolve relative links.
+	baseURL *nurl.URL
 }
 
 func NewPageNumberFinder(wc stringutil.WordCounter, timingInfo *data.TimingInfo, logger logutil.Logger) *PageNumberFinder {
@@ -69,6 +72,10 @@ func (pnf *PageNumberFinder) FindPagination(root *html.Node, pageURL *nurl.URL) 
 	url.RawPath = url.Path
 	strPageURL := stringutil.UnescapedString(&url)
 
+	// Relative links must be resolved against the URL as it was supplied: with the
+	// trailing slash trimmed, "3/" on ".../b/2/" would resolve to ".../b/3" instead
+	// of ".../b/2/3".
+	pnf.baseURL = pageURL
 	paramInfo := pnf.FindOutlink(root, &url)
 	if paramInfo.Type != info.PageNumber {
 		return
@@ -176,7 +183,11 @@ func (pnf *PageNumberFinder) getPageInfoAndText(link *html.Node, pageURL *nurl.U
 	}
 
 	linkHref := dom.GetAttribute(link, "href")
-	linkHref = stringutil.CreateAbsoluteURL(linkHref, pageURL)
+	if pnf.baseURL != nil {
+		linkHref = stringutil.CreateAbsoluteURL(linkHref, pnf.baseURL)
+	} else {
+		linkHref = stringutil.CreateAbsoluteURL(linkHref, pageURL)
+	}
 
 	isEmptyHref := linkHref == ""
 	isJavascriptLink := strings.HasPrefix(linkHref, "javascript:")
